@@ -747,6 +747,13 @@ def o_segmented(case, T):
     exact = fam == "lattice"
     if exact:
         _check_lattice(case)
+    if not exact:
+        # the rounding analysis behind the tolerances assumes normal floats whose squares neither underflow nor
+        # overflow (edge lengths are compared through squares): Hypothesis' "nasty" floats reach subnormals
+        mags = [abs(v) for _, ch in g_chains(G) for p in ch for v in p if v != 0.0]
+        if (math.isfinite(res) and not (1e-150 < res < 1e150)) or any(not (1e-150 < m < 1e150) for m in mags):
+            T.exclude("subnormal_or_huge_scale")
+            return
     g = _mk_geometry(G, case["crs"])
     wkb0 = g.geom.wkb
     out = g.segmented(res)
